@@ -81,7 +81,7 @@ CHECKS.update({
          "DESIGN.md section 6, C10"),
  "C11": ("model_checking",
          "BFS over the Cayley graph of glyph orders (chained adjacent transpositions) plus every one-shot permutation from two base states, name-keyed facts + raw coverage probe as invariants",
-         "All 720 orders of 6 movable glyphs of a font with one lookup of every GSUB/GPOS type+format and every glyph-keyed GDEF structure (3 600 chained transposition transitions + 1 438 one-shot permutations), the same on a real nanoemoji COLRv1 font with GSUB; in every state the name-keyed reading of every table must equal the initial one and every coverage in the binary must be sorted.",
+         "All 720 orders of 6 movable glyphs of a font with one lookup of every GSUB/GPOS type+format and every glyph-keyed GDEF structure (3 600 chained transposition transitions + 1 438 one-shot permutations), the same on a real nanoemoji COLRv1 font with GSUB; in every state the name-keyed reading of every table must equal the initial one and every coverage in the binary must be sorted and every PairSet ordered by second glyph id.",
          "O-FACTS' table of coverage/parallel-array pairs is written from the spec, independently of nanoemoji's rule table.",
          "DESIGN.md section 6, C11"),
  "C12": ("model_checking",
@@ -110,8 +110,8 @@ CHECKS.update({
          "The installed fontTools instancer does not instantiate COLR, so COLR variation is evaluated by vmc/oracles/colrvar.py (written from the spec).",
          "DESIGN.md section 6, C18"),
  "C20": ("model_checking",
-         "exhaustive enumeration field x {flag, file, both, omitted} and of configuration pairs built in one invocation, on the real CLI",
-         "Every FontConfig field that has an observable (meta-check) x 4 ways of giving it, observable read from the emitted font/build dir; pairs of 11 configurations sharing sources in one invocation (quick: 36 pairs, thorough: all 110 ordered pairs), each font byte-compared with the font its configuration produces alone; PIPE<->CLI conformance builds.",
+         "exhaustive enumeration field x {flag, file, both, omitted, flag added on a second invocation} and of configuration pairs built in one invocation, on the real CLI",
+         "Every FontConfig field that has an observable (meta-check) x 5 ways of giving it (the fifth: TOML alone, then the same directory and TOML plus the flag), observable read from the emitted font/build dir; pairs of 11 configurations sharing sources in one invocation (quick: 36 pairs, thorough: all 110 ordered pairs), each font byte-compared with the font its configuration produces alone; PIPE<->CLI conformance builds.",
          "fea_file and ignore_reuse_error have no observable in the statement.",
          "DESIGN.md section 6, C20"),
 })
